@@ -206,6 +206,13 @@ CLAIMED = {
         note="Assumed: linearity of finite sums (pyvc.sigma), _sum_by_group sums per bus, intersect1d / setdiff1d. Not decided: the nodal "
              "balance at ordinary buses (element result sums against branch flows, Newton mismatch), reactive split (_update_q), "
              "dcline terminals, FACTS, loads whose powers cancel at a bus (no per-bus coefficient can represent them)."),
+    "C09": dict(
+        text="Proof for the generic switch / bus (real text): create_bus_lookup re-derives net._impedance_bb_switches from the current "
+             "switch table (closed bus-bus switch between in-service buses with z_ohm > 0) whatever value a previous calculation left "
+             "in the attribute, on the numba and numpy paths; get_voltage_init_vector(init='results') returns a start vector without "
+             "NaN: the previous result where there is one, flat start otherwise, and does not write the result table.",
+        note="Assumed: the bus fusing helpers compute from the current tables. Not decided: the remaining cached state (rebuilt by "
+             "_pd2ppc, covered by the C08 frame contracts; recycling: C12; options: C34), convergence of Newton from a nearby start."),
 }
 
 NOT_APPLICABLE = {
